@@ -367,14 +367,20 @@ def proof_isaac(fn):
             return (f"\n  intro st results"
                     f"\n  have hr : Ext.{G}.rngstep = Isaac.rngstepT Isaac.params{w} := by"
                     f"\n    funext mem results mix a b base m m2; exact ExtTie.{G}.rngstep mem results mix a b base m m2"
-                    f"\n  exact (show Ext.{G}.generate st results = ExtShape.{G}.generate Ext.{G}.rngstep st results from rfl).trans"
-                    f"\n    (by rw [hr]; exact ExtShape.{G}.generate_eq st results)")
+                    f"\n  have e : Ext.{G}.generate st results = ExtShape.{G}.generate Ext.{G}.rngstep st results := by"
+                    f"\n    first"
+                    f"\n    | bounded 100 => rfl"
+                    f"\n    | (simp only [Ext.{G}.generate{_unf(G)}, ExtShape.{G}.generate]; ac_nf; first | done | bounded 100 => rfl)"
+                    f"\n  exact e.trans (by rw [hr]; exact ExtShape.{G}.generate_eq st results)")
         if fn == "init":
             return (f"\n  intro mem rounds"
                     f"\n  have hm : Ext.{G}.mix = Isaac.mixT Isaac.params{w} := by"
                     f"\n    funext a b c d e f g h; exact ExtTie.{G}.mix a b c d e f g h"
-                    f"\n  exact (show Ext.{G}.init mem rounds = ExtShape.{G}.init Ext.{G}.mix mem rounds from rfl).trans"
-                    f"\n    (by rw [hm]; exact ExtShape.{G}.init_eq mem rounds)")
+                    f"\n  have e : Ext.{G}.init mem rounds = ExtShape.{G}.init Ext.{G}.mix mem rounds := by"
+                    f"\n    first"
+                    f"\n    | bounded 100 => rfl"
+                    f"\n    | (simp only [Ext.{G}.init{_unf(G)}, ExtShape.{G}.init]; ac_nf; first | done | bounded 100 => rfl)"
+                    f"\n  exact e.trans (by rw [hm]; exact ExtShape.{G}.init_eq mem rounds)")
         if fn in ("from_rng", "try_from_rng"):
             return (f"\n  intro ρ fill src"
                     f"\n  simp only [Ext.{G}.{fn}{_unf(G)}, ExtTie.{G}.init, Isaac.coreFromRng{w}, foldl_wr_rd_self]"
